@@ -450,7 +450,7 @@ func (r *Run) ready(t *Task) bool {
 		return !m.locked && m.readers == 0
 	case wkRLock:
 		m := (*LockModel)(t.wobj)
-		return !m.locked
+		return !m.locked && !r.writerPending(m)
 	case wkWG:
 		return (*WGModel)(t.wobj).n <= 0
 	case wkOnce:
@@ -1036,6 +1036,26 @@ func AfterRelease() {
 	}
 }
 
+// writerPending reports whether a Lock call is waiting for the current read
+// holders of m to leave. sync.RWMutex then admits no further reader (a blocked
+// Lock excludes new readers), which is what makes recursive read locking a
+// deadlock. A writer waiting behind another writer has not announced itself
+// yet and does not count.
+//
+//go:norace
+func (r *Run) writerPending(m *LockModel) bool {
+	if m.locked || m.readers == 0 {
+		return false
+	}
+	for i := int32(0); i < r.ntasks; i++ {
+		t := r.tasks[i]
+		if t.state == tsBlocked && t.wk == wkMutex && t.wobj == unsafe.Pointer(m) {
+			return true
+		}
+	}
+	return false
+}
+
 //go:norace
 func RLockAcquire(m *LockModel) Mode {
 	r := run
@@ -1047,7 +1067,7 @@ func RLockAcquire(m *LockModel) Mode {
 		return ModeTry
 	}
 	r.point("rlock", 0)
-	for m.locked {
+	for m.locked || r.writerPending(m) {
 		r.block(wkRLock, unsafe.Pointer(m), 0)
 	}
 	m.readers++
